@@ -115,6 +115,46 @@ def apply_stages(g, k):
         getattr(g, s)()
 
 
+def reload(g, how="dict"):
+    """write the graph out and read it back (a history the properties quantify over: 'a graph that was written out
+    and read back between stages')"""
+    if how == "yaml":
+        return SCFG.from_yaml(g.to_yaml())[0]
+    return SCFG.from_dict(g.to_dict())[0]
+
+
+def route_stages(desc, stages):
+    """the stage prefixes worth checking on the route of `desc`: a prefix that ends before the reload point gives the
+    same graph as the direct route"""
+    route = desc.get("route") or "direct"
+    if route == "direct":
+        return list(stages)
+    at = int(route.split("@")[1])
+    return [k for k in stages if k > at]
+
+
+def staged(desc, payload, k):
+    """The graph of `desc` after the first k stages, along the route recorded in desc["route"]:
+    None / "direct": the stages in one go; "reload@j" / "yreload@j": written to a dictionary (YAML text) and read back
+    after stage j (0 <= j < k), then the remaining stages.  -> (graph, original blocks)"""
+    g = build_scfg(desc, payload)
+    orig_blocks = dict(g.graph)
+    route = desc.get("route") or "direct"
+    at = -1
+    how = "dict"
+    if route != "direct":
+        how = "yaml" if route.startswith("y") else "dict"
+        at = int(route.split("@")[1])
+    if at == 0:
+        g = reload(g, how)
+        orig_blocks = dict(g.graph)
+    for j, st in enumerate(STAGES[:k], start=1):
+        getattr(g, st)()
+        if j == at and j < k:
+            g = reload(g, how)
+    return g, orig_blocks
+
+
 # ---------------------------------------------------------------------------
 # hierarchy helpers
 
